@@ -246,6 +246,12 @@ func (pConn *PFCPConn) handleSessionModificationRequest(msg message.Message) (me
 
 	remoteSEID = session.remoteSEID
 
+	// the QERs of the session are programmed under the role (application / session) they have now
+	programmedQosLevels := make(map[uint32]QosLevel, len(session.qers))
+	for _, q := range session.qers {
+		programmedQosLevels[q.qerID] = q.qosLevel
+	}
+
 	addPDRs := make([]pdr, 0, MaxItems)
 	addFARs := make([]far, 0, MaxItems)
 	addQERs := make([]qer, 0, MaxItems)
@@ -352,6 +358,15 @@ func (pConn *PFCPConn) handleSessionModificationRequest(msg message.Message) (me
 	}
 
 	session.MarkSessionQer(session.qers)
+
+	// a modification gives a role to the QERs it creates; a QER that is programmed already keeps the
+	// role it is programmed under (nothing re-programs it when the set of common QERs changes)
+	for i := range session.qers {
+		if level, programmed := programmedQosLevels[session.qers[i].qerID]; programmed {
+			session.qers[i].qosLevel = level
+		}
+	}
+
 	// FIXME: since PacketForwardingRules doesn't store pointers,
 	//  we must also mark session QERs in addQERs.
 	//  We need a kind of refactoring to clean it up.
